@@ -287,8 +287,12 @@ pub open spec fn addr_post<T: std::str::FromStr>(parts: Seq<Seq<u8>>, r: Result<
 
 // ---- verdicts of the public entry points -------------------------------------------------------
 /// v1::Header::try_from(&str) on the bytes `s` of the string
+/// no CR within the first 107 bytes, or a CR so late (index 106 or beyond) that the line cannot end within 107 bytes
+pub open spec fn v1_too_long(s: Seq<u8>) -> bool {
+    (first_index_of(s, 13u8) >= s.len() && s.len() >= 107) || (first_index_of(s, 13u8) < s.len() && first_index_of(s, 13u8) + 2 > 107)
+}
 pub open spec fn entry_verdict_str(s: Seq<u8>) -> V1V {
-    if first_index_of(s, 13u8) >= s.len() && s.len() >= 107 { V1V::Reject(V1K::HeaderTooLong) }
+    if v1_too_long(s) { V1V::Reject(V1K::HeaderTooLong) }
     else if !str_cut_ok(s, v1_window(s).len() as int) { V1V::Reject(V1K::InvalidSuffix) }
     else { header_verdict(v1_window(s)) }
 }
@@ -296,7 +300,7 @@ pub open spec fn entry_verdict_str(s: Seq<u8>) -> V1V {
 /// verdict of the byte entry point: additionally "not valid UTF-8"
 pub enum V1BV { Line(V1V), InvalidUtf8 }
 pub open spec fn entry_verdict_bytes(b: Seq<u8>) -> V1BV {
-    if first_index_of(b, 13u8) >= b.len() && b.len() >= 107 { V1BV::Line(V1V::Reject(V1K::HeaderTooLong)) }
+    if v1_too_long(b) { V1BV::Line(V1V::Reject(V1K::HeaderTooLong)) }
     else if !valid_utf8(v1_window(b)) {
         // [C05] a character cut short by the end of a line whose CR has not arrived yet may be completed by the next
         // read: the verdict is that of the (valid) text before it
@@ -320,10 +324,10 @@ pub open spec fn v1bv_incomplete(v: V1BV) -> bool { v matches V1BV::Line(l) && v
 pub open spec fn v1_res_incomplete(r: Result<V1Header, V1Error>) -> bool { r matches Err(e) && v1_err_incomplete(e) }
 pub open spec fn v1_bin_res_incomplete(r: Result<V1Header, V1BinError>) -> bool { r matches Err(e) && v1_bin_err_incomplete(e) }
 
-/// [C18] the input contains its first CR followed by at least one more byte, or 107 bytes have
-/// been supplied without any CR
+/// [C18] the input contains its first CR followed by at least one more byte, or 107 bytes have been supplied
+/// (without any CR - first sentence of C18 - or with one: "a receiver never has to buffer more than 107 bytes")
 pub open spec fn c18_condition(s: Seq<u8>) -> bool {
-    v1_terminated(s) || (first_index_of(s, 13u8) >= s.len() && s.len() >= 107)
+    v1_terminated(s) || s.len() >= 107
 }
 
 /// projections of `realises` / `addr_post` by property
